@@ -151,4 +151,9 @@ example (log : List Change) :
   · exact ⟨fun _ _ h => List.mem_of_mem_head? h, fun _ h => List.head?_eq_none_iff.mp h⟩
   · exact ⟨fun _ _ h => List.mem_of_getLast? h, fun _ h => List.getLast?_eq_none_iff.mp h⟩
 
+
+/-- what `Validate` admits is what the snapshot's length fields can hold: both count bytes
+(regenerated; seeded change C04-E counts characters on one side only) -/
+theorem metadata_limits_are_byte_lengths : Generated.metadataLimitsAreByteLengths = true := by decide
+
 end Anndb.C04
